@@ -235,6 +235,60 @@ def client_histories(rep, fname, maxlen=4):
                     break
 
 
+PAIR_REQUESTS = [
+    {'t': 'readCoils', 'address': 0, 'count': 9}, {'t': 'readCoils', 'address': 0, 'count': 200},
+    {'t': 'readDiscrete', 'address': 3, 'count': 17},
+    {'t': 'readHolding', 'address': 0, 'count': 2}, {'t': 'readHolding', 'address': 0, 'count': 100},
+    {'t': 'readInput', 'address': 1, 'count': 2}, {'t': 'readInput', 'address': 1, 'count': 33},
+    {'t': 'readWrite', 'read_address': 0, 'read_count': 2, 'write_address': 5, 'write_count': 1, 'write_byte_count': 2, 'write_registers': [7]},
+    {'t': 'readWrite', 'read_address': 0, 'read_count': 10, 'write_address': 5, 'write_count': 1, 'write_byte_count': 2, 'write_registers': [7]},
+    {'t': 'readWrite', 'read_address': 0, 'read_count': 100, 'write_address': 5, 'write_count': 3, 'write_byte_count': 6, 'write_registers': [7, 8, 9]},
+    {'t': 'writeRegister', 'address': 1, 'value': 0xABCD}, {'t': 'writeCoil', 'address': 1, 'word': 0xFF00},
+    {'t': 'writeRegisters', 'address': 0, 'count': 3, 'byte_count': 6, 'values': [1, 2, 3]},
+    {'t': 'writeCoils', 'address': 0, 'count': 9, 'byte_count': 2, 'values': [True] * 9},
+    {'t': 'diag', 'sub': 0, 'message': {'k': 'int', 'n': 0xA5A5}}, {'t': 'diag', 'sub': 11, 'message': {'k': 'int', 'n': 0}},
+]
+
+
+def client_pairs(rep, fname, store):
+    """two DIFFERENT requests one after the other on ONE client (every ordered pair of a list that covers every predicting
+    class with two quantities each): whatever the client keeps from the first transaction, the reply to the second is read
+    exactly and returned"""
+    fcls = FRAMERS[fname]
+    builder = StubClient(fcls).framer
+    for i, m1 in enumerate(PAIR_REQUESTS):
+        for j, m2 in enumerate(PAIR_REQUESTS):
+            if i == j:
+                continue
+            c = StubClient(fcls, b'')
+            rep.case(('pairs', fname, i, j), nontrivial=True, tag='client-pairs:' + fname)
+            for m in (m1, m2):
+                MCB.reset()
+                MCB.ListenOnly = False
+                resp = serve(store, m)
+                req = msggen.mk_req(m)
+                req.unit_id = resp.unit_id = 1
+                resp.transaction_id = (c.transaction.tid + 1) & 0xFFFF
+                frame = builder.buildPacket(resp)
+                expect = pdus.resp_to_json(ClientDecoder().decode(bytes([resp.function_code]) + resp.encode()))
+                c.reply, c.pos, c.asked = frame, 0, []
+                try:
+                    got = c.transaction.execute(req)
+                    got = {'error_object': True} if isinstance(got, Exception) else pdus.resp_to_json(got)
+                except Exception as e:  # noqa
+                    got = {'raised': errkind(e)}
+                asked = list(c.asked)
+                over = bool(asked) and all(a is not None for a in asked) and sum(asked) != len(frame)
+                if got != expect or over or c.pos != len(frame):
+                    if fname == 'binary' and framelib.has_delim(frame):
+                        break            # (known finding binary-framer-escaping: checked per request by check_client)
+                    rep.violation('on a client that has already run another transaction the reply was not read exactly', 
+                                  {'kind': 'client-pairs', 'framer': fname, 'first': {k: (v if not isinstance(v, list) else len(v)) for k, v in m1.items()},
+                                   'second': {k: (v if not isinstance(v, list) else len(v)) for k, v in m2.items()}, 'failed_at': 'first' if m is m1 else 'second'},
+                                  asked=asked, frame_len=len(frame), consumed=c.pos, got=got, expected=expect)
+                    break
+
+
 def client_retries(rep, fname):
     """a client that RETRIES (retry_on_empty): the unit was silent for a whole call, then is silent on the first attempt of
     the next call and answers the retry — with an exception reply, or with the normal reply.  On every attempt the
@@ -511,6 +565,7 @@ def run(ctx):
     for fname in framer_names:
         client_history(rep, fname)
         client_histories(rep, fname)
+        client_pairs(rep, fname, store)
         if fname in ('rtu', 'ascii', 'binary'):
             client_echo(rep, fname)
             client_retries(rep, fname)
